@@ -25,12 +25,12 @@ class TableJob:
     """One TLC exploration of MC.tla whose emitted rows are replayed on the code."""
 
     def __init__(self, name, acts, emit, vals="{1}", hosts='{"0"}', keylen=2, base="<<>>", maxcount=7,
-                 viewacct=False, targets=None, workers=8, timeout=1200, root="MC", extra_consts=None,
+                 viewacct=False, entrydepth=1, targets=None, workers=8, timeout=1200, root="MC", extra_consts=None,
                  inv=None, props=None):
         self.name, self.acts, self.emit = name, acts, emit
         self.consts = dict(KeyLen=str(keylen), Base=base, Hosts=hosts, Vals=vals, Acts=tset(acts),
                            MaxCount=str(maxcount), EmitActs=tset(emit),
-                           ViewAcct="TRUE" if viewacct else "FALSE")
+                           ViewAcct="TRUE" if viewacct else "FALSE", EntryDepth=str(entrydepth))
         if extra_consts:
             self.consts.update(extra_consts)
         self.targets = targets or [(t, "map", "plain") for t in QUICK_TYPES]
@@ -64,7 +64,9 @@ def plan(prop, tier):
     if prop == "C01":
         return [TableJob("c01_u2", MUT + EXACT, MUT + EXACT, vals="{1,2}", maxcount=3 if q else 7,
                          targets=targets(types)),
-                TableJob("c01_u2s", MUT + EXACT, MUT + EXACT, targets=sets)]
+                TableJob("c01_u2s", MUT + EXACT, MUT + EXACT, targets=sets),
+                TableJob("c01_entry", ["Insert", "Remove", "RemoveKeepTree", "Entry", "GetMut"], ["Entry", "GetMut"],
+                         vals="{1,2}", maxcount=2 if q else 3, entrydepth=1 if q else 2, targets=targets(types))]
     if prop == "C02":
         return [TableJob("c02_u2", MUT + ["Lpm"], ["Lpm"], targets=both)]
     if prop == "C03":
